@@ -208,9 +208,14 @@ def run(ctx, chk):
                 continue
             # cursor loop: need evidence from the walked paths
             lk = "%s@bb%d" % (d, h)
-            rs = loops_seen.get((d, lk), [])
-            backs = [r for r in rs if r.kind == "backedge" and Walker._site_str(r.detail) == lk]
-            ok, why = cursor_progress(backs, lk, body)
+            # the same source loop may be walked in several inlinings; every one of them must make progress
+            keys = sorted({k for (dd, k) in loops_seen if dd == d and (k == lk or k.startswith(lk + "<-"))})
+            ok, why = (False, "no iteration path walked")
+            for k in keys:
+                backs = [r for r in loops_seen[(d, k)] if r.kind == "backedge" and Walker._site_str(r.detail) == k]
+                ok, why = cursor_progress(backs, k, body)
+                if not ok:
+                    break
             chk.require(ok, "Z3", key, body.span, "loop is neither iterator-driven nor a bounded advancing cursor: %s" % why)
     chk.stats["loops"] = nloops
 
